@@ -1,6 +1,6 @@
 #!/venv/bin/python
 """atheris target for C13: arbitrary bytes as an IPS file given to `.include_ips`, differential against
-the strict reader: well formed (and no record at the EOF offset, offsets >= 0x10000) => same effect;
+the strict reader: well formed (and no record at the EOF offset, records clear of the host bytes at 0x8000) => same effect;
 malformed => rejected."""
 import os, sys
 
@@ -21,7 +21,7 @@ with atheris.instrument_imports(include=["a816"]):
     from a816.program import Program  # noqa: E402
 
 OUT = os.environ.get("FUZZ_OUT", "")
-SRC = "*=0x008000\n.db 1\n.include_ips 'p.ips', 0\n.db 2\n"
+SRC = "*=0x018000\n.db 1\n.include_ips 'p.ips', 0\n.db 2\n"
 
 
 def one(data: bytes):
@@ -37,7 +37,7 @@ def one(data: bytes):
             return  # well formed up to EOF with trailing bytes: not in the generated domain (some tools append a truncation length)
         except ips.IpsError:
             pass
-    if good and any(o == ips.EOF_OFFSET or o < 0x10000 or len(d) == 0 for o, d, _ in recs):
+    if good and any(o == ips.EOF_OFFSET or (o < 0x8100 and o + len(d) > 0x7F00) or len(d) == 0 for o, d, _ in recs):
         return
     res = driver.assemble_mem(SRC, files={"p.ips": data})
     bad = None
@@ -45,7 +45,7 @@ def one(data: bytes):
         if not res.accepted:
             bad = f"well-formed rejected: {res['exc']} {res.failure_text[:80]}"
         else:
-            calls = [b for b in res["blocks"] if b != (0, b"\x01\x02")]
+            calls = [b for b in res["blocks"] if b != (0x8000, b"\x01\x02")]
             if ips.normalise(calls) != ips.normalise([(o, d) for o, d, _ in recs]):
                 bad = "effect differs"
     elif res.accepted:
